@@ -90,7 +90,14 @@ fn trim(mut s: String) -> String {
 }
 
 /// (announced size, source): the source holds `short_by` bytes less, or `extra` bytes more
-fn piece(data: &crate::model::Data, src: &crate::model::Src) -> (u64, PieceSource) {
+fn piece(data: &crate::model::Data, src: &crate::model::Src) -> (u64, Box<dyn Read>) {
+    if src.stream {
+        let seed = match data {
+            crate::model::Data::Rand { seed, .. } => Some(*seed),
+            _ => None,
+        };
+        return (data.len() as u64, Box::new(crate::seams::GenSource::new(data.len(), seed)));
+    }
     let mut bytes = data.bytes();
     let announced = bytes.len() as u64;
     if src.short_by > 0 {
@@ -100,7 +107,7 @@ fn piece(data: &crate::model::Data, src: &crate::model::Src) -> (u64, PieceSourc
         bytes.extend(std::iter::repeat(0xEE).take(src.extra));
     }
     let end = bytes.len();
-    (announced, PieceSource::new(Rc::new(bytes), end, &src.sched))
+    (announced, Box::new(PieceSource::new(Rc::new(bytes), end, &src.sched)))
 }
 
 fn es<E: std::fmt::Debug>(e: E) -> String {
